@@ -8,6 +8,7 @@
 package relaydrv
 
 import (
+	"os"
 	"context"
 	"errors"
 	"fmt"
@@ -23,6 +24,7 @@ import (
 	"github.com/containerd/nri/pkg/stub"
 	"github.com/containerd/nri/pkg/vhook"
 
+	"verif/harness/isolate"
 	"verif/harness/rawpeer"
 	"verif/harness/rec"
 	"verif/harness/rig"
@@ -70,6 +72,7 @@ type Options struct {
 	NoBlocks bool // negative self-test: the runtime forgets the sync blocks
 	AllMasks bool // masks: enumerate instead of random (plugin k of run r gets mask number r*Plugins+k+1)
 	MaskBase int
+	Skip     int // runs already done by an earlier (crashed) process
 }
 
 type pconf struct {
@@ -94,6 +97,8 @@ type session struct {
 	finished map[string]bool
 	// what each runtime caller is in the middle of (watchdog report)
 	phase sync.Map
+	// plugins whose connection the runtime has closed (hook plugin.closed)
+	closedSeen sync.Map
 	// the last (released) sync block of each caller
 	prevBlock sync.Map
 }
@@ -200,6 +205,7 @@ func (s *session) hook(point string, args ...interface{}) {
 		s.fmu.Unlock()
 	case "plugin.closed":
 		s.ev("closed", "p", args[0].(string))
+		s.closedSeen.Store(args[0].(string), true)
 	default:
 		return
 	}
@@ -782,12 +788,20 @@ func Run(o Options) (int, error) {
 		return 0, err
 	}
 	defer w.Close()
-	s := &session{o: o, rng: rand.New(rand.NewSource(o.Seed))}
-	for i := 1; i <= o.Runs; i++ {
+	w.Sync = true
+	s := &session{o: o}
+	for i := o.Skip + 1; i <= o.Runs; i++ {
 		s.run = i
-		if err := s.oneRun(w); err != nil {
-			if err == errWedged { // the process is wedged: what was recorded is validated, no further runs
-				break
+		// every run has its own random stream: a restart after a crash continues with the same runs
+		s.rng = rand.New(rand.NewSource(o.Seed*1000003 + int64(i)))
+		done := isolate.Guard(150*time.Second, fmt.Sprintf("run %d", i))
+		err := s.oneRun(w)
+		done()
+		if err != nil {
+			if err == errWedged { // the process is wedged: what was recorded is kept, a new process continues
+				w.Close()
+				fmt.Fprintln(os.Stderr, "wedged: restarting")
+				os.Exit(3)
 			}
 			return 0, err
 		}
